@@ -18,8 +18,8 @@ LEVEL = 'exploration'
 NAMES = ['a', 'bc']
 NUMBERS = ['1', '2.5']
 STRINGS_Q = ["'s'", '"t"']
-STRINGS_T = ["'s'", '"t"', "r'u'", '"""v"""', '"a b"', "'#'", '"x\\"y"', "'it\\'s'", '""', "r'\\d'", '"""m\nn"""', "'a\\\\'", '"\\\\"', "r'\\\\'"]
-STRINGS_ESC_Q = ["'a\\\\'", '"x\\"y"', '"\\\\"']
+STRINGS_T = ["'s'", '"t"', "r'u'", '"""v"""', '"a b"', "'#'", '"x\\"y"', "'it\\'s'", '""', "r'\\d'", '"""m\nn"""', "'a\\\\'", '"\\\\"', "r'\\\\'", '"""a\\""""', '"""\\""""', '"""a\\"b"""', '"""a""b"""']
+STRINGS_ESC_Q = ["'a\\\\'", '"x\\"y"', '"\\\\"', '"""a\\""""', '"""\\""""']
 PY_OPS = None   # computed from TokenDefinition ∩ Python
 
 
